@@ -6,7 +6,7 @@
 From Coq Require Import NArith List.
 From Verif Require Import Model.CodecBase Model.CodecPPPoE Model.CodecLcp Model.CodecAuth Model.CodecDhcp6
   Model.CodecMisc Model.CodecSpec Model.CodecCheck
-  Proofs.CodecBaseProofs Proofs.CodecPPPoEProofs Proofs.CodecMiscProofs.
+  Proofs.CodecBaseProofs Proofs.CodecPPPoEProofs Proofs.CodecMiscProofs Proofs.CodecRoundTripProofs.
 Import ListNotations.
 Local Open Scope N_scope.
 
@@ -28,7 +28,7 @@ Theorem C09_no_panic_discovery : forall sid d tail, safe (handle_discovery sid d
 Proof. exact handle_discovery_safe. Qed.
 Print Assumptions C09_no_panic_discovery.
 
-Theorem C09_no_panic_session : forall sid d tail, safe (handle_session sid d tail).
+Theorem C09_no_panic_session : forall sid authed d tail, safe (handle_session sid authed d tail).
 Proof. exact handle_session_safe. Qed.
 Print Assumptions C09_no_panic_session.
 
@@ -66,7 +66,7 @@ Theorem C09_discovery_reads_only_input : forall sid d tail, handle_discovery sid
 Proof. exact handle_discovery_no_overread. Qed.
 Print Assumptions C09_discovery_reads_only_input.
 
-Theorem C09_session_reads_only_input : forall sid d tail, handle_session sid d tail = handle_session sid d [].
+Theorem C09_session_reads_only_input : forall sid authed d tail, handle_session sid authed d tail = handle_session sid authed d [].
 Proof. exact handle_session_no_overread. Qed.
 Print Assumptions C09_session_reads_only_input.
 
@@ -120,6 +120,24 @@ Theorem C09_model_create_accepted : forall p,
 Proof. exact model_create_accepted. Qed.
 Print Assumptions C09_model_create_accepted.
 
+(* (6) round trips of the 16-bit TLV codec: parsing what the serializer wrote returns the values.
+   [tlv_ok eol t]: type and value length fit 16 bits; for PPPoE tags the type is not End-Of-List (0). *)
+Theorem C09_tags_roundtrip : forall ts, Forall (tlv_ok true) ts -> parse_tags (ser_tlv16 ts) = Ok (tlv_rows ts).
+Proof. exact parse_tags_roundtrip. Qed.
+Print Assumptions C09_tags_roundtrip.
+
+Theorem C09_dhcpv6_options_roundtrip : forall os, Forall (tlv_ok false) os -> d6_options (ser_tlv16 os) = Ok (tlv_rows os).
+Proof. exact d6_options_roundtrip. Qed.
+Print Assumptions C09_dhcpv6_options_roundtrip.
+
+Example C09_roundtrip_hypothesis_satisfiable :
+  Forall (tlv_ok true) [(257, [105; 110]); (259, [])] /\
+  parse_tags (ser_tlv16 [(257, [105; 110]); (259, [])]) = Ok [[257; 2; 105; 110]; [259; 0]].
+Proof.
+  split; [|vm_compute; reflexivity].
+  repeat constructor; cbn; try discriminate; try (intros _; discriminate).
+Qed.
+
 (* non-vacuity of the hypotheses: a table with ids 1..65534 live and 65535 free, cursor at 2 *)
 Example C09_table_wf_satisfiable :
   table_wf (fun id => negb (id =? 65535)) 65534 /\
@@ -129,7 +147,7 @@ Proof. split; [intros _; exists 65535; repeat split; discriminate|vm_compute; re
 (* the witnesses of the repaired defects are rejected inputs now, not panics (regression) *)
 Example C09_witnesses :
   handle_discovery 0 [17; 9; 0; 0; 5; 0] [] = Ok [[0]] /\
-  handle_session 1 [17; 0; 0; 1; 0; 0; 192; 33] [] = Ok [[1]] /\
+  handle_session 1 0 [17; 0; 0; 1; 0; 0; 192; 33] [] = Ok [[1]] /\
   auth_receive 49699 1 [2; 1; 0; 0; 16] = Err /\
   lcp_receive 9 1 [9; 7; 0; 6; 1; 2] = Ok [] /\
   parse_padt [17; 167; 0; 1; 0; 9; 1] [] = Err.
